@@ -14,6 +14,7 @@ pub mod c07x;
 pub mod c10;
 pub mod c10x;
 pub mod c10y;
+pub mod c10z;
 pub mod c11;
 pub mod c12;
 pub mod c13;
